@@ -28,5 +28,9 @@ CLAIMS = {
     "C02": dict(category=MC, technique="TLC refinement check of the two constant folders (FlatImpl.Compile, DeepImpl.DCompile) + 5-way differential replay judged against the TLA+ reference",
                 text="Same enumeration as C01; folded, unfolded, re-folded (once and twice) and deep results of every case are each compared with the reference meaning modulo AC.",
                 note=BASE_NOTE),
+    "C03": dict(category=MC, technique="TLC refinement check of DeepImpl (parser, compile, flatten_vecs, flatex_to_deepex) + replay of every TLC-enumerated case through 7 conversion words + TLC-judged random traces incl. token soup",
+                text="Flat/deep parsing and every conversion word f2d, fwo2d, d2f, f2d2f, d2f2d are compared with the reference meaning (variables + value modulo AC); "
+                     "for strings outside the grammar all accepting entry points must agree; operator listings are judged against the listing specification.",
+                note=BASE_NOTE + "Listings are judged on sampled (1/6) direction-A records and on every direction-B record."),
 }
 NOT_YET = {}
